@@ -111,7 +111,11 @@ PROPS["C09"] = {
     "domains": [{"name": "upd", "n_quick": 800, "n_thorough": 20000},
                 {"name": "typ", "n_quick": 800, "n_thorough": 20000},
                 {"name": "val", "n_quick": 1500, "n_thorough": 30000},
-                {"name": "ser", "n_quick": 800, "n_thorough": 20000}],
+                {"name": "ser", "n_quick": 800, "n_thorough": 20000},
+                {"name": "iso", "n_quick": 60, "n_thorough": 1500}],
+    # the model is a pure function of the op line and the explicit state: any op of these domains on
+    # which the implementation differs from it is an unexplained dependence
+    "all_ops": True,
     "lean_modules": ["SMD.Properties.C09", "SMD.Spec.Facts", "SMD.Generated.MapRanges"],
     "theorems": ["SMD.C09.all_map_ranges_covered"],
     "assumptions": ["partial: state left in pooled walkers and freelist reuse are runtime matters decided observationally by the repeat-call judges (every op repeated after unrelated, failing and conflicting calls and after GC); the theorem covers the iteration order of every Go map, against a table regenerated from the source on every run"],
@@ -126,6 +130,7 @@ PROPS["C10"] = {
 }
 OP_PROPS["conc.round"] = ["C10"]
 OP_PROPS["gmap.ops"] = ["C18"]
+OP_PROPS["iso.pair"] = ["C09"]
 OP_PROPS["upd.mode"] = ["C20"]
 OP_PROPS["upd.sync"] = ["C20"]
 OP_PROPS["upd.conv"] = ["C08", "C20"]
